@@ -64,6 +64,7 @@ type job struct {
 	depth   int
 	cfg     qmodel.Config
 	focus   string // "" = full alphabet; "dlq" = small alphabet centred on dead-lettering and DLQ retention
+	scaled  bool   // memory: order-list compaction thresholds lowered (qcheck.Spec.ScaleCompaction)
 }
 
 // dlqAlpha: two messages with equal received_at (batch), dead-lettered singly or as a batch, DLQ listing / requeue /
@@ -85,12 +86,16 @@ func TestCheck(t *testing.T) {
 	r := runner.Start("C02", "model_checking")
 	var jobs []job
 	for _, cfg := range configs(r) {
-		jobs = append(jobs, job{"memory", runner.Pick(r, 5, 6), cfg, ""}, job{"sqlite", runner.Pick(r, 4, 5), cfg, ""})
+		jobs = append(jobs, job{"memory", runner.Pick(r, 5, 6), cfg, "", false}, job{"sqlite", runner.Pick(r, 4, 5), cfg, "", false})
+	}
+	// the same memory searches with the order-list compaction brought into reach
+	for _, cfg := range configs(r) {
+		jobs = append(jobs, job{"memory", runner.Pick(r, 5, 6), cfg, "", true})
 	}
 	for _, cfg := range []qmodel.Config{{DLQMaxDepth: 1, PruneInterval: sec}, {DLQMaxDepth: 2, DLQMaxAge: 10 * sec, PruneInterval: sec}} {
-		jobs = append(jobs, job{"memory", runner.Pick(r, 6, 7), cfg, "dlq"}, job{"sqlite", runner.Pick(r, 5, 6), cfg, "dlq"})
+		jobs = append(jobs, job{"memory", runner.Pick(r, 6, 7), cfg, "dlq", false}, job{"sqlite", runner.Pick(r, 5, 6), cfg, "dlq", false})
 	}
-	par := 12
+	par := 14
 	waves := (len(jobs) + par - 1) / par
 	budget := runner.Pick(r, 150*time.Second, 13*time.Minute) / time.Duration(waves)
 	if ji, ok := runner.Job(); ok {
@@ -99,7 +104,7 @@ func TestCheck(t *testing.T) {
 		if j.focus == "dlq" {
 			al, name = dlqAlpha(), "c02-dlq"
 		}
-		spec := qcheck.Spec{Name: name, Backend: j.backend, Cfg: j.cfg, Alpha: al, Depth: j.depth, Workers: 4,
+		spec := qcheck.Spec{Name: name, Backend: j.backend, Cfg: j.cfg, Alpha: al, Depth: j.depth, Workers: 4, ScaleCompaction: j.scaled,
 			MaxTrans: runner.Pick(r, int64(3_000_000), int64(40_000_000)), Deadline: time.Now().Add(budget)}
 		res := qcheck.Run(spec)
 		for e := range res.Edges {
